@@ -10,7 +10,7 @@ import hv, iogen, iorun, iosuite, ioeval
 def build_cases(ctx, reg):
     g = iogen.Gen(ctx.rng, reg)
     quick = ctx.tier == "quick"
-    cases = iosuite.corpus_cases()
+    cases = iosuite.corpus_cases("C03")
     cases += iogen.scalar_matrix(g)
     cases += iosuite.strings_family(g)
     cases += iosuite.maps_family(g)
